@@ -1,6 +1,10 @@
 package openapi
 
-import "github.com/jsightapi/jsight-api-core/catalog"
+import (
+	"sort"
+
+	"github.com/jsightapi/jsight-api-core/catalog"
+)
 
 type Responses map[responseCode]*ResponseObject
 
@@ -23,8 +27,17 @@ func newResponses(i *catalog.HTTPInteraction) (*Responses, Error) {
 		sortedResponses[rCode] = append(sortedResponses[rCode], &i.Responses[idx])
 	}
 
+	// Walk the codes in a fixed order: the first code which cannot be converted
+	// decides the error, and that must not depend on the order of a map.
+	codes := make([]responseCode, 0, len(sortedResponses))
+	for rc := range sortedResponses {
+		codes = append(codes, rc)
+	}
+	sort.Slice(codes, func(a, b int) bool { return codes[a] < codes[b] })
+
 	r := make(Responses, 1)
-	for rc, respArr := range sortedResponses {
+	for _, rc := range codes {
+		respArr := sortedResponses[rc]
 		var err Error
 		var resp *ResponseObject
 
